@@ -621,28 +621,18 @@ def rule_M(ctx):
     from .. import absint
     g = ctx.prog.func(MAP + '.mapOnTrack')
 
-    class P(orders.PyStub):
-        isa = ('ENUCoords',)
+    # positions are the repository's own ENUCoords objects (whose equality has a tolerance)
+    class _Lazy:
+        cls = None
 
-        def __init__(self, x, y, z=0.0):
-            self.x, self.y = float(x), float(y)
+    def P(x, y, z=0.0):
+        return _Lazy.cls(float(x), float(y), float(z))
 
-        def getX(self):
-            return self.x
+    def px(p):
+        return p.fields['E']
 
-        def getY(self):
-            return self.y
-
-        def getZ(self):
-            return 0.0
-
-        def copy(self):
-            return P(self.x, self.y)
-
-        def distance2DTo(self, o):
-            return math.hypot(self.x - o.x, self.y - o.y)
-
-        distanceTo = distance2DTo
+    def py(p):
+        return p.fields['N']
 
     class O(orders.PyStub):
         isa = ('Obs',)
@@ -676,10 +666,10 @@ def rule_M(ctx):
             return self[i]
 
         def getX(self):
-            return [o.position.x for o in self.obs]
+            return [px(o.position) for o in self.obs]
 
         def getY(self):
-            return [o.position.y for o in self.obs]
+            return [py(o.position) for o in self.obs]
 
         def addObs(self, o):
             self.obs.append(o)
@@ -694,8 +684,11 @@ def rule_M(ctx):
         def getObsAnalyticalFeature(self, name, i):
             return self.af[name][i]
     Track.__qualname__ = Track.__name__ = 'Track'
-    fn = absint.funcs(ctx, MAP, {'Track': Track, 'Obs': O, 'ENUCoords': P})
+    fn = absint.funcs(ctx, MAP, {'Track': Track, 'Obs': O})
     fn['__globals__'].update({'Track': Track})
+    _Lazy.cls = absint.classref(ctx, 'tracklib.core.obs_coords.ENUCoords', fn)
+    fn['sqrt'], fn['hypot'] = math.sqrt, math.hypot
+    is_pos = lambda v: isinstance(v, orders.Obj) and 'E' in v.fields and 'N' in v.fields
 
     def seg_dist(q, a, b):
         dx, dy = b[0] - a[0], b[1] - a[1]
@@ -718,6 +711,9 @@ def rule_M(ctx):
         'a short near segment followed by a long one straddling the query': [(0.2, 5.3), (0, 5.2), (3, 4.9)],
         'single segment': [(2, 1), (9, 4), (0, 0), (12, 6), (5, 9), (5.5, 2.5)],
     }
+    # consecutive queries closer than the tolerance of the position equality, yet distinct (a receiver creeping along): each has its own projection
+    lines['gentle slope (queries 0.05 mm apart)'] = [(0, 0), (10, 0.002), (20, 0.001)]
+    queries['gentle slope (queries 0.05 mm apart)'] = [(5, 0.0005), (5.00004, 0.00053), (5.00008, 0.00056), (5.00008, 0.00056), (5.00012, 0.00052)]
     bad = None
     n_cases = 0
     run = orders.make_func(g.node, fn)
@@ -731,7 +727,7 @@ def rule_M(ctx):
         if moved:
             ref = refs[lname]
             for o_, p_ in zip(ref.obs, pts):
-                o_.position.x, o_.position.y = float(p_[0]), float(p_[1])
+                o_.position.fields['E'], o_.position.fields['N'] = float(p_[0]), float(p_[1])
             lname = lname + ' (the same track object after being rotated and translated in place)'
             qs = [(7.0 - 0.6 * y_ + 0.8 * x_, -3.0 + 0.8 * y_ + 0.6 * x_) for x_, y_ in queries[lname.split(' (the same')[0]]]
         else:
@@ -753,11 +749,11 @@ def rule_M(ctx):
             n_cases += 1
             want = min(seg_dist(q_, pts[j], pts[j + 1]) for j in range(len(pts) - 1))
             for form, (pp, dd, ee) in (('track form', (out.obs[k].position, out.af['dist'][k], out.af['edge'][k])), ('single-coordinate form', singles[k] if isinstance(singles[k], tuple) and len(singles[k]) == 3 else (None, None, None))):
-                ok = isinstance(pp, P) and isinstance(dd, (int, float)) and isinstance(ee, int) and not isinstance(ee, bool) and 0 <= ee < len(pts) - 1
+                ok = is_pos(pp) and isinstance(dd, (int, float)) and isinstance(ee, int) and not isinstance(ee, bool) and 0 <= ee < len(pts) - 1
                 why = 'the segment index designates a segment of the reference polyline (0 .. %d)' % (len(pts) - 2)
                 if ok:
-                    on = seg_dist((pp.x, pp.y), pts[ee], pts[ee + 1])
-                    dq = math.hypot(q_[0] - pp.x, q_[1] - pp.y)
+                    on = seg_dist((px(pp), py(pp)), pts[ee], pts[ee + 1])
+                    dq = math.hypot(q_[0] - px(pp), q_[1] - py(pp))
                     tol = 1e-9 * max(1.0, want)
                     if on > 1e-9:
                         ok, why = False, 'the returned point lies on the segment whose index is returned'
@@ -767,7 +763,7 @@ def rule_M(ctx):
                         ok, why = False, 'no point of the polyline is closer to the query than the returned one'
                 if not ok and bad is None:
                     bad = {'reference polyline': lname, 'vertices': [list(p_) for p_ in pts], 'query': list(q_), 'form': form,
-                           'returned (point, distance, segment index)': [[pp.x, pp.y] if isinstance(pp, P) else repr(pp), dd, ee],
+                           'returned (point, distance, segment index)': [[px(pp), py(pp)] if is_pos(pp) else repr(pp), dd, ee],
                            'distance to the nearest point of the polyline': want, 'violated': why}
     ctx.check(bad is None, 'C20.M', g, 'mapOnTrack returns, for every query, the nearest point of the reference polyline, its distance and the index of a segment '
               'that carries it (%d query/polyline configurations, track and single-coordinate forms)' % n_cases,
